@@ -38,7 +38,7 @@ Clauses ==
       [] Tr.kind = "same_tree" ->
            [SameTree |-> Tr.ns = Tr.other]
       [] Tr.kind = "inert" ->
-           [Inert |-> Inert(Tr.ns)]
+           [Inert |-> IF "spans" \in DOMAIN Tr THEN InertExcept(Tr.ns, Tr.spans) ELSE Inert(Tr.ns)]
       [] Tr.kind = "modes" ->
            [Modes |-> ModesOK(Tr.ns, Tr.cfg)]
 Holds == \A f \in DOMAIN Clauses : Clauses[f]
